@@ -17,7 +17,10 @@
     C05_continue_complete / C05_not_recorded (DB content after B read back through the backend API) evaluated by the
     driver on run B's trace, cross-checked by Python reference monitors; plus the Python predicate C05_reexecuted on
     run C (a task with a failure report in B is never `skip_uptodate` in C unless it is stateless, and executes when
-    nothing fails in C).
+    nothing fails in C).  "A task that fails" is also read as what its action DID (the harness wrote the action: a
+    python-action returning False / raising, a cmd-action exiting non-zero or killed by a signal): if such a task was
+    executed and NOT reported as a failure (C05_failure_recognised), all the statements are evaluated again on the
+    ground-truth trace (C05_truth_*: its dependents must not start, no record, executes again).
 """
 import json
 import os
@@ -99,7 +102,10 @@ META = {
 SIGNATURES = {}
 
 LEAN_KEYS = ['C05_no_dependent_runs', 'C05_serial_stops', 'C05_continue_complete', 'C05_not_recorded']
-ALL_KEYS = LEAN_KEYS + ['C05_reexecuted']
+# the same statements with "fails" read as what the task's action DID (known to the harness: it wrote the action), not
+# as what doit reported: evaluated only when an executed task with a failing action was not reported as a failure
+TRUTH_LEAN_KEYS = ['C05_truth_no_dependent_runs', 'C05_truth_serial_stops', 'C05_truth_not_recorded']
+ALL_KEYS = LEAN_KEYS + ['C05_reexecuted', 'C05_failure_recognised'] + TRUTH_LEAN_KEYS + ['C05_truth_reexecuted']
 BACKENDS = ('json', 'dbm', 'sqlite3')
 FIXED_MTIME = 1500000000
 
@@ -554,7 +560,42 @@ def dep_closure(model, trace, t, fin, utd):
     return seen
 
 
+def truth_trace(case, obs):
+    """(trace', tasks): the trace with the `success` report of every task that was EXECUTED in run B and whose action
+    failed by construction (oracle outcome failed / error / saveerr) replaced by the failure report it should have been;
+    tasks = those tasks (empty on a tree that recognises every failure: then trace' == trace)"""
+    tr = obs['trace']
+    started = set(e[1] for e in tr if e[0] == 'start')
+    kind = {'failed': 'failed', 'error': 'error', 'saveerr': 'deperr'}
+    wrong = []
+    out = []
+    for e in tr:
+        if e[0] == 'success' and e[1] in started and 0 <= e[1] < len(case['tasks']) \
+                and case['tasks'][e[1]]['kind'] != 'group' and case['tasks'][e[1]]['outcome'] in kind:
+            wrong.append(e[1])
+            out.append(['failure', e[1], kind[case['tasks'][e[1]]['outcome']]])
+        else:
+            out.append(e)
+    return out, wrong
+
+
 def py_monitors(case, obs):
+    flags, wit = _py_monitors(case, obs)
+    for k in ('C05_failure_recognised', 'C05_truth_reexecuted') + tuple(TRUTH_LEAN_KEYS):
+        flags[k] = True
+    tt, wrong = truth_trace(case, obs)
+    if wrong:
+        flags['C05_failure_recognised'] = False
+        wit['failure_recognised'] = {'tasks_whose_action_failed_but_were_reported_successful': wrong}
+        f2, w2 = _py_monitors(case, dict(obs, trace=tt))
+        for k in ('no_dependent_runs', 'serial_stops', 'not_recorded', 'reexecuted'):
+            flags['C05_truth_' + k] = f2['C05_' + k]
+            if k in w2:
+                wit['truth_' + k] = w2[k]
+    return flags, wit
+
+
+def _py_monitors(case, obs):
     model = case['model']
     tr = obs['trace']
     n = model['n']
@@ -642,7 +683,16 @@ def model_request(case, obs):
     req['model'] = 'c05'
     if obs.get('recorded') is not None:
         req['recorded'] = obs['recorded']
+    tt, wrong = truth_trace(case, obs)
+    if wrong:
+        req['truthTrace'] = tt
     return req
+
+
+def lean_flags(ans):
+    d = dict(ans.get('monitor') or {})
+    d.update(ans.get('monitor_truth') or {})
+    return d
 
 
 def ask_model(pairs):
@@ -694,7 +744,7 @@ def judge(case, obs, ans, st, shrink_left):
     if ans is None or 'error' in ans:
         st.count('driver_unavailable')
     else:
-        lean = ans.get('monitor') or {}
+        lean = lean_flags(ans)
         if ans.get('skipped'):
             st.count('model_search_skipped')
         st.count('model:accepted' if ans.get('accepted') else 'model:rejected')
@@ -720,7 +770,7 @@ def judge(case, obs, ans, st, shrink_left):
             used = time.time() - t0
         o2 = run_phases(small)
         a2 = ask_model([(small, o2)])[0]
-        l2 = None if 'error' in a2 else a2.get('monitor')
+        l2 = None if 'error' in a2 else lean_flags(a2)
         bad2, p2, w2 = failing_keys(small, o2, l2)
         wit_ = make_witness(small, o2, bad2, p2, l2, w2) if (bad2 and case_ok(small, o2)) else wit0
         st.violation(wit_, 'monitor:' + ','.join(wit_['failed_monitors']),
@@ -728,7 +778,7 @@ def judge(case, obs, ans, st, shrink_left):
         st.count('violation_found')
         return used
     if lean is not None:
-        disagree = [k for k in LEAN_KEYS if py.get(k, True) != lean.get(k, True)]
+        disagree = [k for k in LEAN_KEYS + TRUTH_LEAN_KEYS if py.get(k, True) != lean.get(k, True)]
         if disagree:
             st.divergence(make_witness(case, obs, disagree, py, lean, wit),
                           'python and Lean monitors disagree on %s' % disagree)
@@ -1028,7 +1078,7 @@ def replay(ctx, data):
     nxt = obs.get('next') or {}
     print('next run      : exit=%s %s' % (nxt.get('exit'), runlib.render_trace(case, nxt.get('trace', []))))
     ans = ask_model([(case, obs)])[0]
-    lean = None if 'error' in ans else ans.get('monitor')
+    lean = None if 'error' in ans else lean_flags(ans)
     bad, py, wit = failing_keys(case, obs, lean)
     print('python monitors:', py)
     print('lean monitors  :', lean if lean is not None else ans)
